@@ -348,6 +348,74 @@ fn with_work<T>(f: impl FnOnce(&mut Work) -> T) -> T {
     })
 }
 
+fn serialize_ast(fmt: &str, ast: &AST) -> Option<String> {
+    match fmt {
+        "json" => serde_json::to_string(ast).ok(),
+        "lisp" => serde_lexpr::to_string(ast).ok(),
+        _ => serde_yaml::to_string(ast).ok(),
+    }
+}
+
+/// `fml compile` where nothing tells it the AST format (stdin or a file without a known
+/// extension, no --input-format).  The pinned tree refuses these command lines; whatever a tree
+/// does, a run that exits 0 must have produced exactly the image (and nothing else on stdout),
+/// and a run that refuses must leave stdout empty.
+fn underivable(w: &mut Work, b: &Baseline, fmt: &str, case: &Value) -> Result<u64, Violation> {
+    let herr = |e: std::io::Error| Violation::new("harness-error", format!("cannot run fml: {}", e), json!({}));
+    let text = match serialize_ast(fmt, &b.ast) {
+        Some(t) => t,
+        None => return Ok(0),
+    };
+    let dir = w.sc.dir.join("stage");
+    std::fs::create_dir_all(&dir).unwrap();
+    let plain = dir.join("tree_without_extension");
+    let odd = dir.join("tree.txt");
+    std::fs::write(&plain, &text).unwrap();
+    std::fs::write(&odd, &text).unwrap();
+    let out_file = dir.join("underivable.bc");
+    let mut n = 0;
+    for (iname, input) in [("stdin", None), ("file without extension", Some(&plain)), ("file.txt", Some(&odd))] {
+        for to_file in [false, true] {
+            let mut args: Vec<String> = vec!["compile".into()];
+            if let Some(f) = input {
+                args.push(f.to_string_lossy().into());
+            }
+            let _ = std::fs::remove_file(&out_file);
+            if to_file {
+                args.extend(["-o".to_string(), out_file.to_string_lossy().into()]);
+            }
+            let a: Vec<&str> = args.iter().map(|s| s.as_str()).collect();
+            let mut inv = Invocation::new(&w.bin, &a);
+            if input.is_none() {
+                inv = inv.stdin(text.as_bytes());
+            }
+            let o = inv.run().map_err(herr)?;
+            n += 1;
+            let what = format!("[{} AST from {}, no --input-format, output to {}]", fmt, iname, if to_file { "-o FILE" } else { "stdout" });
+            if let Status::Signal(sig) = o.status {
+                return Err(fail("native-crash", "compile", fmt, format!("{} fml compile died on signal {}", what, sig), case));
+            }
+            if o.status.success() {
+                let bytes = if to_file { std::fs::read(&out_file).unwrap_or_default() } else { o.stdout.clone() };
+                let right = b.image.as_ref().map(|im| im == &bytes).unwrap_or(false) && (!to_file || o.stdout.is_empty());
+                if !right {
+                    return Err(fail(
+                        "bytes-differ",
+                        "compile",
+                        fmt,
+                        format!("{} `fml compile` exits 0 but its output ({} bytes{}) is not the image of the program ({:?} bytes)", what, bytes.len(), if to_file { format!(", plus {} bytes on stdout", o.stdout.len()) } else { String::new() }, b.image.as_ref().map(|i| i.len())),
+                        case,
+                    )
+                    .with("config", "underivable-input-format"));
+                }
+            } else if !o.stdout.is_empty() {
+                return Err(fail("stage-refuses", "compile", fmt, format!("{} `fml compile` refuses, yet writes {} bytes to stdout", what, o.stdout.len()), case).with("config", "underivable-input-format"));
+            }
+        }
+    }
+    Ok(n)
+}
+
 fn judge_source(src: &str, depth: usize, cfgs: &[(usize, Cfg)], ctx: &mut Ctx, case: &Value) -> Judged {
     ctx.eval();
     let res = with_work(|w| -> Result<bool, Violation> {
@@ -360,6 +428,13 @@ fn judge_source(src: &str, depth: usize, cfgs: &[(usize, Cfg)], ctx: &mut Ctx, c
         }
         for (fi, cfg) in cfgs {
             staged(w, &b, FORMATS[*fi], cfg, case)?;
+        }
+        // every fourth program (by source length) also through the command lines that give
+        // `fml compile` no format at all
+        if src.len() % 4 == 0 {
+            let fi = (src.len() / 4) % 3;
+            underivable(w, &b, FORMATS[fi], case)?;
+            underivable(w, &b, "json", case)?;
         }
         Ok(true)
     });
@@ -390,6 +465,21 @@ fn ladder_source(kind: &str, n: usize) -> String {
         "arrays" => format!("let a = {}; print(\"ok\\n\")", rep("array(1, ", "0", ")")),
         _ => format!("print(\"~\\n\", {})", rep("if true then ", "3", " else 4")),
     }
+}
+
+fn long_text_programs() -> Vec<(String, String)> {
+    let mut out = vec![];
+    for tail in [1023usize, 1024, 1500, 5000, 9000, 70_000] {
+        let t: String = (0..tail).map(|i| (b'a' + (i % 26) as u8) as char).collect();
+        out.push((format!("newline-then-{}-characters", tail), format!("print(\"head\\n\"); print(\"first line\n{}\")", t)));
+        out.push((format!("{}-characters-then-newline", tail), format!("print(\"{}\n\"); print(\"tail\\n\")", t)));
+        let u: String = (0..tail / 2).map(|i| ['ž', 'é', '日', 'a'][i % 4]).collect();
+        out.push((format!("newline-then-{}-non-ascii-characters", tail / 2), format!("print(\"x\n{}\\n\")", u)));
+    }
+    // many short statements: 3000 prints (the AST texts are several hundred KB)
+    let many: Vec<String> = (0..3000).map(|i| format!("print(\"line ~\\n\", {})", i)).collect();
+    out.push(("3000-statements".into(), many.join("; ")));
+    out
 }
 
 pub const LADDER_KINDS: [&str; 5] = ["blocks", "operators", "calls", "arrays", "conditionals"];
@@ -433,6 +523,24 @@ impl Property for C06 {
                         v.detail = format!("[ladder {} depth {}] {}", kind, d, v.detail);
                         out.push(v);
                     }
+                }
+            }
+        }
+        // strings and programs longer than the buffers between the stages (1 KiB line buffer of a
+        // piped stdout, 8 KiB file buffers): a line break followed by a long tail, long lines, a
+        // long program; every stage once through a pipe and once through files
+        for (i, (name, src)) in long_text_programs().into_iter().enumerate() {
+            if !ctx.shard_mine(i + 3) {
+                continue;
+            }
+            ctx.label("long-text-program");
+            for fi in 0..3 {
+                let piped = Cfg { parse_out: ParseOut::Stdout, parse_stdin: true, compile_stdin: true, compile_explicit: true, compile_out: CompileOut::Stdout, exec_stdin: true, mislead: false };
+                let filed = Cfg { parse_out: ParseOut::FileInferred, parse_stdin: false, compile_stdin: false, compile_explicit: false, compile_out: CompileOut::File, exec_stdin: false, mislead: false };
+                let case = json!({"long_text_program": name, "format": FORMATS[fi], "source_prefix": src.chars().take(120).collect::<String>(), "source_len": src.len()});
+                if let Err(mut v) = judge_source(&src, 1, &[(fi, piped), (fi, filed)], ctx, &case) {
+                    v.detail = format!("[long text program {}] {}", name, v.detail);
+                    out.push(v);
                 }
             }
         }
